@@ -29,6 +29,9 @@ impl Trace {
         self.out.write_all(b"\n").unwrap();
         self.n_events += 1;
     }
+    pub fn flush(&mut self) {
+        self.out.flush().unwrap();
+    }
     pub fn finish(mut self) {
         self.out.flush().unwrap();
     }
@@ -93,4 +96,39 @@ impl Rng {
     pub fn pick<'a, T>(&mut self, v: &'a [T]) -> &'a T {
         &v[self.below(v.len() as u64) as usize]
     }
+}
+
+/// Watchdog for code under test that never returns from a poll (a synchronous livelock cannot be bounded from inside the
+/// driver): the driver calls `beat(note)` whenever it gets control; when nothing beats for `secs` seconds of wall time the
+/// watchdog writes `{"note": .., "secs": ..}` to `<out>.hang` and ends the process with exit code 3.
+static BEAT: std::sync::atomic::AtomicU64 = std::sync::atomic::AtomicU64::new(0);
+static NOTE: std::sync::Mutex<String> = std::sync::Mutex::new(String::new());
+pub fn beat(note: &str) {
+    BEAT.fetch_add(1, std::sync::atomic::Ordering::Relaxed);
+    let mut n = NOTE.lock().unwrap();
+    if n.as_str() != note {
+        *n = note.to_string();
+    }
+}
+pub fn watchdog(out: &str, secs: u64) {
+    let path = format!("{out}.hang");
+    let _ = std::fs::remove_file(&path);
+    std::thread::spawn(move || {
+        let (mut last, mut still) = (u64::MAX, 0u64);
+        loop {
+            std::thread::sleep(std::time::Duration::from_secs(1));
+            let b = BEAT.load(std::sync::atomic::Ordering::Relaxed);
+            if b == last {
+                still += 1;
+            } else {
+                last = b;
+                still = 0;
+            }
+            if still >= secs {
+                let note = NOTE.lock().map(|n| n.clone()).unwrap_or_default();
+                let _ = std::fs::write(&path, serde_json::json!({"note": note, "secs": secs}).to_string());
+                std::process::exit(3);
+            }
+        }
+    });
 }
